@@ -90,6 +90,9 @@ func (e *Engine) callValue(fnv Value, args []Value, c *ssa.CallCommon) Value {
 		e.rep.FuncsIntrinsic[base]++
 		return in(e, args, fn)
 	}
+	if strings.HasPrefix(base, "(time.Time).") || strings.HasPrefix(base, "(*time.Time).") {
+		e.unsupported("time.Time method without a model: %s", base)
+	}
 	if fn.Pkg != nil {
 		pp := fn.Pkg.Pkg.Path()
 		if fn.Name() == "init" && fn.Signature.Recv() == nil && fn.Parent() == nil {
